@@ -18,6 +18,8 @@ claimed={
         "Node enumeration through exported fields (harness/h/reprint.go) is the oracle."),
  "C13":("Either/or contract asserted on all bounded byte strings and token sequences with 5 parameter maps; 'fails exactly when' asserted against rule predicates R1-R4 evaluated on the real parser's tree for every token sequence within the bound and for corrupted seed programs with calls, joins and lets at depth.",
         "Rule predicates (harness/h/c13.go) transcribe the documented rules; R5/R6 are parse failures."),
+ "C07":("An independent recursive-descent parser of the documented grammar (by precedence levels) runs on the same symbolic tokens; whenever it derives the sequence the real parser must succeed with a field-by-field equal tree (positions ignored; operator kinds, names, flags, defaults, optional parts). Families: all token sequences within the bound, operator ladders with arbitrary binary operators, seed programs and their corruptions, and layout/synonym variations through the real lexer.",
+        "Reference grammar (harness/h/refparse.go) is the oracle; constructs not in it (chained indexing, comma before by) carry no claim."),
 }
 checks=[]
 for p in props:
